@@ -502,7 +502,10 @@ func (p *Transformer) transformFuncBody(m llvm.Module, ctx llvm.Context, info *F
 				rv = b.CreateRetVoid()
 			case AttrWidthType:
 				if p.optimize {
-					if load := ret.IsALoadInst(); !load.IsNil() {
+					// Re-reading the load's source is only sound when nothing executes between
+					// the load and the return: `old := *p; *p = n; return old` must return the
+					// value read before the store (same hazard as issue 1608 for sret results).
+					if load := ret.IsALoadInst(); !load.IsNil() && llvm.PrevInstruction(instr) == load {
 						iptr := b.CreateBitCast(ret.Operand(0), llvm.PointerType(nft.ReturnType(), 0), "")
 						rv = b.CreateRet(b.CreateLoad(nft.ReturnType(), iptr, ""))
 						break
